@@ -30,12 +30,23 @@ def make_density(names):
     return ns["density"]
 
 
+XS = np.array([1.0, 2.0, 4.0])
+
+
+def make_xy_model(m, names):
+    ns = {}
+    exec("def line_%d(x, %s=1.0, %s=1.0):\n    return %s * x + %s\n" % (m, names[0], names[1], names[0], names[1]), ns)
+    return ns["line_%d" % m]
+
+
 def build(first):
-    from kafe2 import HistContainer, HistFit, IndexedFit, MultiFit
+    from kafe2 import HistContainer, HistFit, IndexedFit, MultiFit, XYFit
     fits = []
     for i, (names, kind) in enumerate(zip(first["pars"], first["kind"])):
         m = i + 1
-        if kind == "chi2":
+        if kind == "xy":
+            fits.append(XYFit([XS, DATA[m]], make_xy_model(m, names)))
+        elif kind == "chi2":
             fits.append(IndexedFit(DATA[m], make_model(m, names)))
         else:
             fits.append(HistFit(HistContainer(5, (0.0, 5.0), fill_data=HDATA), make_density(names)))
@@ -124,13 +135,63 @@ def gls_solution(first, st, pvals, all_names):
     return dict(zip(free, sol)), np.linalg.inv(H)
 
 
+def init_sources(first, fits):
+    for i, kind in enumerate(first["kind"]):
+        if kind == "chi2":
+            fits[i].add_error(float(np.sqrt(VAR["o%d" % (i + 1)])), name="o%d" % (i + 1))
+        elif kind == "xy":
+            fits[i].add_error("y", float(np.sqrt(VAR["o%d" % (i + 1)])), name="o%d" % (i + 1))
+
+
+def apply_mutator(multi, fits, first, a):
+    nm = a["name"]
+    xy = "xy" in first["kind"]
+    if nm == "SetPar":
+        tgt = multi if a["f"] == 0 else fits[a["f"] - 1]
+        tgt.set_parameter_values(**{a["p"]: PV[a["v"]]})
+    elif nm == "FixPar":
+        multi.fix_parameter(a["p"])
+    elif nm == "ReleasePar":
+        multi.release_parameter(a["p"])
+    elif nm == "AddConstraint":
+        tgt = multi if a["f"] == 0 else fits[a["f"] - 1]
+        names = list(tgt.parameter_names)
+        if a["k"] == 1:
+            tgt.add_parameter_constraint(names[0], CON[1]["value"], CON[1]["unc"])
+        else:
+            tgt.add_matrix_parameter_constraint(names[:2], CON[2]["values"], CON[2]["cov"])
+    elif nm == "AddSource":
+        members = sorted(a["fits"])
+        axis = "x" if a["s"].startswith("x") else "y"
+        val = 0.3 if axis == "x" else float(np.sqrt(VAR[a["s"]]))
+        if len(members) == 1:
+            fits[members[0] - 1].add_error(*(((axis,) if xy else ()) + (val,)), name=a["s"])
+        elif xy:
+            multi.add_error(val, fits=[m - 1 for m in members], axis=axis, name=a["s"], correlation=0.5 if axis == "x" else 0)
+        else:
+            multi.add_error(val, fits=[m - 1 for m in members], name=a["s"])
+    elif nm == "DoFit":
+        multi.do_fit()
+    else:
+        raise RuntimeError("adapter: unknown action %r" % nm)
+
+
+def reference_multi(first, muts):
+    """a new multi-fit brought to the same configuration by the same mutators, the reads deleted"""
+    multi, fits = build(first)
+    init_sources(first, fits)
+    for a in muts:
+        apply_mutator(multi, fits, first, a)
+    return multi, fits
+
+
 def replay_walk(walk):
     warnings.simplefilter("ignore")
     first = walk["first"]
     multi, fits = build(first)
-    for i, kind in enumerate(first["kind"]):
-        if kind == "chi2":
-            fits[i].add_error(float(np.sqrt(VAR["o%d" % (i + 1)])), name="o%d" % (i + 1))
+    init_sources(first, fits)
+    xy_pattern = "xy" in first["kind"]
+    muts = []
     issues = []
     all_names = list(multi.parameter_names)
 
@@ -139,6 +200,28 @@ def replay_walk(walk):
 
     def check(k, o, st):
         pv = dict(zip(multi.parameter_names, [float(v) for v in multi.parameter_values]))
+        if xy_pattern and o in ("cost", "total_cov", "gof", "chi2p", "member_results"):
+            if not st["ready"] or (o == "member_results" and not st["fitted"]):
+                return True
+            ref, rfits = reference_multi(first, muts)
+            fitted = any(m["name"] == "DoFit" for m in muts)
+            tol = 1e-3 if fitted else 1e-9
+            if o == "cost":
+                a_, b_ = float(multi.cost_function_value), float(ref.cost_function_value)
+                if abs(a_ - b_) > tol * max(1.0, abs(b_)):
+                    viol(k, "cost of the multi-fit differs from a new multi-fit brought to the same configuration", dict(actual=a_, reference=b_, mutators=muts))
+                    return False
+            elif o == "total_cov":
+                a_, b_ = np.asarray(multi.total_cov_mat, dtype=float), np.asarray(ref.total_cov_mat, dtype=float)
+                if a_.shape != b_.shape or not np.allclose(a_, b_, rtol=max(tol, 1e-9) * 50 if fitted else 1e-9, atol=1e-12):
+                    viol(k, "joint covariance of the multi-fit differs from a new multi-fit brought to the same configuration", dict(actual=a_.tolist(), reference=b_.tolist(), mutators=muts))
+                    return False
+            elif o in ("gof", "chi2p"):
+                a_, b_ = (multi.goodness_of_fit, ref.goodness_of_fit) if o == "gof" else (multi.chi2_probability, ref.chi2_probability)
+                if (a_ is None) != (b_ is None) or (a_ is not None and abs(float(a_) - float(b_)) > tol * max(1.0, abs(float(b_)))):
+                    viol(k, "%s of the multi-fit differs from a new multi-fit brought to the same configuration" % o, dict(actual=a_, reference=b_, mutators=muts))
+                    return False
+            return True
         if o == "values":
             for i, f in enumerate(fits):
                 for nm, v in zip(f.parameter_names, f.parameter_values):
@@ -238,33 +321,14 @@ def replay_walk(walk):
         a = e["a"]
         nm = a["name"]
         try:
-            if nm == "SetPar":
-                tgt = multi if a["f"] == 0 else fits[a["f"] - 1]
-                tgt.set_parameter_values(**{a["p"]: PV[a["v"]]})
-            elif nm == "FixPar":
-                multi.fix_parameter(a["p"])
-            elif nm == "ReleasePar":
-                multi.release_parameter(a["p"])
-            elif nm == "AddConstraint":
-                tgt = multi if a["f"] == 0 else fits[a["f"] - 1]
-                names = list(tgt.parameter_names)
-                if a["k"] == 1:
-                    tgt.add_parameter_constraint(names[0], CON[1]["value"], CON[1]["unc"])
-                else:
-                    tgt.add_matrix_parameter_constraint(names[:2], CON[2]["values"], CON[2]["cov"])
-            elif nm == "AddSource":
-                members = sorted(a["fits"])
-                if len(members) == 1:
-                    fits[members[0] - 1].add_error(float(np.sqrt(VAR[a["s"]])), name=a["s"])
-                else:
-                    multi.add_error(float(np.sqrt(VAR[a["s"]])), fits=[m - 1 for m in members], name=a["s"])
-            elif nm == "DoFit":
-                multi.do_fit()
-            elif nm == "Read":
-                if not check(k, a["o"], e):
-                    return issues
-            else:
-                raise RuntimeError("adapter: unknown action %r" % nm)
+            if nm != "Read":
+                apply_mutator(multi, fits, first, a)
+                muts.append(a)
+                if xy_pattern and e.get("ready"):
+                    # reads may come anywhere: the live object is asked for its cost after every mutator, the reference never before the end
+                    _ = multi.cost_function_value, multi.total_cov_mat
+            elif not check(k, a["o"], e):
+                return issues
         except RuntimeError:
             raise
         except Exception as exc:
